@@ -1,19 +1,32 @@
-"""Contracts for gridworld.py, inner_env.py, outer_env.py (C01 C02 C03 C04 C12)."""
+"""Contracts for gridworld.py, inner_env.py, outer_env.py (C01 C02 C03 C04 C08-C12 C20).
+
+Everything here is stated through the public interface: environments are built by their real constructors
+from opaque components (stubs with a ghost call trace), driven by public calls, and what is checked is which
+components were called, with what, in which order, and what came back.  No private attribute is named, so
+renaming one, or keeping a memo in a new one, changes nothing here unless behaviour changes."""
 from pyvc_rt import *
 from contracts.spec import *
 
 GWM = 'gym_gridverse.envs.gridworld:'
 IEM = 'gym_gridverse.envs.inner_env:'
 OEM = 'gym_gridverse.outer_env:'
-TWC = 'gym_gridverse.envs.transition_functions:transition_with_copy'
 DBG = 'gym_gridverse.debugging:gv_debug'
 MKRNG = 'gym_gridverse.rng:make_rng'
 
 SPACE = ('object', {'contains': ('fn', 'bool')})
 ASPACE = ('new', 'gym_gridverse.spaces:ActionSpace', [('list', 'Action', 3)])
+PARTS = {'sspace': SPACE, 'aspace': ASPACE, 'ospace': SPACE, 'Rs': ('fn', 'State'), 'T': ('fn', 'None'),
+         'Ob': ('fn', 'Observation'), 'Rw': ('fn', 'float'), 'Tm': ('fn', 'bool')}
 GW0 = ('new', GWM + 'GridWorld', [SPACE, ASPACE, SPACE, ('fn', 'State'), ('fn', 'None'), ('fn', 'Observation'),
                                   ('fn', 'float'), ('fn', 'bool')])
-GW = ('with', GW0, {'_rng': ('opt', 'Rng')})
+
+
+def build(sspace, aspace, ospace, Rs, T, Ob, Rw, Tm, seeded, seed):
+    from gym_gridverse.envs.gridworld import GridWorld
+    gw = GridWorld(sspace, aspace, ospace, Rs, T, Ob, Rw, Tm)
+    if seeded:
+        gw.set_seed(seed)
+    return gw
 
 
 def no_debug():
@@ -21,113 +34,146 @@ def no_debug():
     return all(not ghost_result(DBG, i) for i in range(ghost_calls(DBG)))
 
 
-@contract(target=GWM + 'GridWorld.functional_step', args={'self': GW, 'state': 'State', 'action': 'Action'},
-          stubs={TWC: 'State', DBG: 'bool'}, props=['C01', 'C02', 'C03', 'C12'])
-def functional_step(self, state, action):
-    s0 = old(state)
-    legal = action in self.action_space.actions
-    T = self._transition_function
-    Rw = self._reward_function
-    Tm = self._termination_function
-    ensures('rejects-illegal-action-and-changes-nothing', lambda: implies(not legal, lambda: (
-        raised(ValueError) and ghost_calls(TWC) == 0 and ghost_calls(Rw) == 0 and ghost_calls(Tm) == 0
-        and ghost_calls(T) == 0 and same(state, s0))))
-    ensures('only-debug-checks-raise', lambda: implies(legal and not returned(), lambda: raised(ValueError) and not no_debug()))
-    ensures('total-without-debug', lambda: implies(legal and no_debug(), lambda: returned()))
-    ensures('copy-then-transition', lambda: implies(returned(), lambda: (
-        ghost_calls(TWC) == 1 and ghost_arg(TWC, 0, 0) is T and ghost_arg(TWC, 0, 1) is state
-        and ghost_arg(TWC, 0, 2) is action and ghost_kwarg(TWC, 0, 'rng') is self._rng)))
-    ensures('reward-and-termination-on-the-same-triple', lambda: implies(returned(), lambda: (
+def seeded_generator(seeded, seed):
+    """the generator the environment must hand to its components: the one made from the seed, or none"""
+    return ghost_result(MKRNG, 0) if (seeded and ghost_calls(MKRNG) > 0) else None
+
+
+@lemma(args=dict(PARTS, state='State', action='Action', seeded='bool', seed='int'), stubs={DBG: 'bool', MKRNG: 'Rng'},
+       props=['C01', 'C02', 'C03', 'C08', 'C09', 'C10', 'C11', 'C12'])
+def gridworld_functional_step(sspace, aspace, ospace, Rs, T, Ob, Rw, Tm, state, action, seeded, seed):
+    from gym_gridverse.utils.fast_copy import fast_copy
+    gw = build(sspace, aspace, ospace, Rs, T, Ob, Rw, Tm, seeded, seed)
+    rng = seeded_generator(seeded, seed)
+    s0 = fast_copy(state)
+    legal = action in aspace.actions
+    rejected = False
+    out = None
+    try:
+        out = gw.functional_step(state, action)
+    except ValueError:
+        rejected = True
+    check('seed-reaches-the-generator-factory', lambda: implies(seeded, lambda: ghost_calls(MKRNG) == 1
+                                                              and ghost_arg(MKRNG, 0, 0) == seed))
+    check('rejects-illegal-action-and-changes-nothing', lambda: implies(not legal, lambda: (
+        rejected and ghost_calls(Rw) == 0 and ghost_calls(Tm) == 0 and ghost_calls(T) == 0 and same(state, s0))))
+    check('only-debug-checks-raise', lambda: implies(legal and rejected, lambda: not no_debug()))
+    check('total-without-debug', lambda: implies(legal and no_debug(), lambda: not rejected))
+    check('transition-runs-once-on-a-copy-with-the-environment-generator', lambda: implies(not rejected, lambda: (
+        ghost_calls(T) == 1 and ghost_arg(T, 0, 0) is not state and same(ghost_arg(T, 0, 0), s0)
+        and ghost_arg(T, 0, 1) is action and ghost_kwarg(T, 0, 'rng') is rng)))
+    check('reward-and-termination-on-the-same-triple', lambda: implies(not rejected, lambda: (
         ghost_calls(Rw) == 1 and ghost_calls(Tm) == 1
-        and ghost_arg(Rw, 0, 0) is state and ghost_arg(Rw, 0, 1) is action and ghost_arg(Rw, 0, 2) is ghost_result(TWC, 0)
-        and ghost_arg(Tm, 0, 0) is state and ghost_arg(Tm, 0, 1) is action and ghost_arg(Tm, 0, 2) is ghost_result(TWC, 0))))
-    ensures('returns-exactly', lambda: implies(returned(), lambda: (
-        result()[0] is ghost_result(TWC, 0) and result()[1] == ghost_result(Rw, 0)
-        and result()[2] == ghost_result(Tm, 0))))
-    ensures('input-state-unchanged', lambda: same(state, s0))
+        and ghost_arg(Rw, 0, 0) is state and ghost_arg(Rw, 0, 1) is action and ghost_arg(Rw, 0, 2) is ghost_arg(T, 0, 0)
+        and ghost_arg(Tm, 0, 0) is state and ghost_arg(Tm, 0, 1) is action and ghost_arg(Tm, 0, 2) is ghost_arg(T, 0, 0)
+        and ghost_seq(T, 0) < ghost_seq(Rw, 0) and ghost_seq(T, 0) < ghost_seq(Tm, 0))))
+    check('returns-exactly', lambda: implies(not rejected, lambda: (
+        out[0] is ghost_arg(T, 0, 0) and out[1] == ghost_result(Rw, 0) and out[2] == ghost_result(Tm, 0))))
+    check('next-state-shares-no-mutable-component', lambda: implies(not rejected, lambda: (
+        out[0].grid is not state.grid and out[0].agent is not state.agent
+        and out[0].agent.transform is not state.agent.transform and out[0].grid.objects is not state.grid.objects)))
+    check('input-state-unchanged', lambda: same(state, s0))
 
 
-@contract(target=GWM + 'GridWorld.functional_reset', args={'self': GW}, stubs={DBG: 'bool'},
-          props=['C01', 'C02', 'C13'])
-def functional_reset(self):
-    Rs = self._reset_function
-    ensures('only-debug-checks-raise', lambda: implies(not returned(), lambda: raised(ValueError) and not no_debug()))
-    ensures('total-without-debug', lambda: implies(no_debug(), lambda: returned()))
-    ensures('threads-own-rng', lambda: ghost_calls(Rs) == 1 and ghost_kwarg(Rs, 0, 'rng') is self._rng)
-    ensures('returns-exactly', lambda: implies(returned(), lambda: result() is ghost_result(Rs, 0)))
+@lemma(args=dict(PARTS, state='State', seeded='bool', seed='int'), stubs={DBG: 'bool', MKRNG: 'Rng'},
+       props=['C01', 'C02', 'C03', 'C13'])
+def gridworld_reset_and_observation(sspace, aspace, ospace, Rs, T, Ob, Rw, Tm, state, seeded, seed):
+    from gym_gridverse.utils.fast_copy import fast_copy
+    gw = build(sspace, aspace, ospace, Rs, T, Ob, Rw, Tm, seeded, seed)
+    rng = seeded_generator(seeded, seed)
+    s0 = fast_copy(state)
+    r_rejected = False
+    first = None
+    try:
+        first = gw.functional_reset()
+    except ValueError:
+        r_rejected = True
+    n_dbg = ghost_calls(DBG)
+    reset_without_debug = all(not ghost_result(DBG, i) for i in range(n_dbg))
+    check('reset-only-debug-checks-raise', lambda: implies(r_rejected, lambda: not reset_without_debug))
+    check('reset-total-without-debug', lambda: implies(reset_without_debug, lambda: not r_rejected))
+    check('reset-threads-the-environment-generator', lambda: ghost_calls(Rs) == 1 and ghost_kwarg(Rs, 0, 'rng') is rng)
+    check('reset-returns-exactly', lambda: implies(not r_rejected, lambda: first is ghost_result(Rs, 0)))
+    o_rejected = False
+    obs = None
+    try:
+        obs = gw.functional_observation(state)
+    except ValueError:
+        o_rejected = True
+    obs_without_debug = all(not ghost_result(DBG, i) for i in range(n_dbg, ghost_calls(DBG)))
+    check('observation-only-debug-checks-raise', lambda: implies(o_rejected, lambda: not obs_without_debug))
+    check('observation-total-without-debug', lambda: implies(obs_without_debug, lambda: not o_rejected))
+    check('observation-threads-the-environment-generator', lambda: ghost_calls(Ob) == 1 and ghost_arg(Ob, 0, 0) is state
+          and ghost_kwarg(Ob, 0, 'rng') is rng)
+    check('observation-returns-exactly', lambda: implies(not o_rejected, lambda: obs is ghost_result(Ob, 0)))
+    check('observation-leaves-the-state-unchanged', lambda: same(state, s0))
+    check('transition-reward-termination-not-called', lambda: ghost_calls(T) == 0 and ghost_calls(Rw) == 0 and ghost_calls(Tm) == 0)
 
 
-@contract(target=GWM + 'GridWorld.functional_observation', args={'self': GW, 'state': 'State'}, stubs={DBG: 'bool'},
-          props=['C01', 'C02', 'C03'])
-def functional_observation(self, state):
-    s0 = old(state)
-    Ob = self._observation_function
-    ensures('only-debug-checks-raise', lambda: implies(not returned(), lambda: raised(ValueError) and not no_debug()))
-    ensures('total-without-debug', lambda: implies(no_debug(), lambda: returned()))
-    ensures('threads-own-rng', lambda: ghost_calls(Ob) == 1 and ghost_arg(Ob, 0, 0) is state
-            and ghost_kwarg(Ob, 0, 'rng') is self._rng)
-    ensures('returns-exactly', lambda: implies(returned(), lambda: result() is ghost_result(Ob, 0)))
-    ensures('input-state-unchanged', lambda: same(state, s0))
-
-
-@contract(target=GWM + 'GridWorld.set_seed', args={'self': GW, 'seed': 'int'}, stubs={MKRNG: 'Rng'}, props=['C02'])
-def set_seed(self, seed):
-    ensures('fresh-generator-from-seed', lambda: returned() and ghost_calls(MKRNG) == 1
-            and ghost_arg(MKRNG, 0, 0) == seed and self._rng is ghost_result(MKRNG, 0))
-
-
-# ------------------------------------------------------------------------- InnerEnv
+# ------------------------------------------------------------------------- InnerEnv (stateful interface)
 FR = GWM + 'GridWorld.functional_reset'
 FS = GWM + 'GridWorld.functional_step'
 FO = GWM + 'GridWorld.functional_observation'
-ENV = ('with', GW0, {'_state': ('opt', 'State'), '_observation': ('opt', 'Observation')})
+FSTEP = ('tuple', ['State', 'float', 'bool'])
+ENV = GW0
 
 
-@contract(target=IEM + 'InnerEnv.reset', args={'self': ENV}, stubs={FR: 'State', FO: 'Observation'}, props=['C04', 'C20'])
-def env_reset(self):
-    ensures('total', lambda: returned())
-    ensures('state-from-functional-reset', lambda: ghost_calls(FR) == 1 and self._state is ghost_result(FR, 0))
-    ensures('observation-invalidated', lambda: self._observation is None and ghost_calls(FO) == 0)
+def raises_runtime_error(thunk):
+    try:
+        thunk()
+    except RuntimeError:
+        return True
+    return False
 
 
-@contract(target=IEM + 'InnerEnv.step', args={'self': ENV, 'action': 'Action'},
-          stubs={FS: ('tuple', ['State', 'float', 'bool']), FO: 'Observation'}, props=['C04', 'C20'])
-def env_step(self, action):
-    st0 = old(self._state)
-    ob0 = old(self._observation)
-    had = self._state is not None if False else None
-    ensures('before-reset-raises-and-does-nothing', lambda: implies(st0 is None, lambda: (
-        raised(RuntimeError) and ghost_calls(FS) == 0 and self._state is None and same(self._observation, ob0))))
-    ensures('steps-current-state', lambda: implies(st0 is not None, lambda: (
-        returned() and ghost_calls(FS) == 1 and same(ghost_arg(FS, 0, 1), st0) and ghost_arg(FS, 0, 2) is action)))
-    ensures('state-replaced-observation-invalidated', lambda: implies(st0 is not None, lambda: (
-        self._state is ghost_result(FS, 0)[0] and self._observation is None and ghost_calls(FO) == 0)))
-    ensures('returns-reward-and-done', lambda: implies(st0 is not None, lambda: (
-        result()[0] == ghost_result(FS, 0)[1] and result()[1] == ghost_result(FS, 0)[2])))
+def last_call(f):
+    return ghost_calls(f) - 1
 
 
-@contract(target=IEM + 'InnerEnv.state', args={'self': ENV}, stubs={FS: None, FR: None, FO: None}, props=['C04'])
-def env_state(self):
-    st0 = old(self._state)
-    ensures('raises-before-reset', lambda: (st0 is None) == raised(RuntimeError) and (st0 is not None) == returned())
-    ensures('returns-current-state', lambda: implies(returned(), lambda: result() is self._state))
-    ensures('reads-only', lambda: ghost_calls(FS) == 0 and ghost_calls(FR) == 0 and ghost_calls(FO) == 0)
+@lemma(args={'self': ENV, 'action': 'Action'}, stubs={FR: 'State', FS: FSTEP, FO: 'Observation'}, props=['C04', 'C20'])
+def inner_before_the_first_reset(self, action):
+    check('state-raises', lambda: raises_runtime_error(lambda: self.state))
+    check('observation-raises', lambda: raises_runtime_error(lambda: self.observation))
+    check('step-raises', lambda: raises_runtime_error(lambda: self.step(action)))
+    check('nothing-was-computed', lambda: ghost_calls(FR) == 0 and ghost_calls(FS) == 0 and ghost_calls(FO) == 0)
+    check('still-unusable-afterwards', lambda: raises_runtime_error(lambda: self.state))
 
 
-@contract(target=IEM + 'InnerEnv.observation', args={'self': ENV}, stubs={FO: 'Observation', FS: None, FR: None},
-          props=['C04', 'C20'])
-def env_observation(self):
-    st0 = old(self._state)
-    ob0 = old(self._observation)
-    cached = self._observation is not None
-    c0 = old(cached)
-    ensures('memoised-read-consumes-nothing', lambda: implies(c0, lambda: (
-        returned() and ghost_calls(FO) == 0 and same(result(), ob0) and result() is self._observation)))
-    ensures('computed-once-from-current-state', lambda: implies(not c0 and st0 is not None, lambda: (
-        returned() and ghost_calls(FO) == 1 and ghost_arg(FO, 0, 1) is self._state
-        and result() is ghost_result(FO, 0) and self._observation is result())))
-    ensures('raises-before-reset', lambda: implies(not c0 and st0 is None, lambda: raised(RuntimeError) and ghost_calls(FO) == 0))
-    ensures('never-steps', lambda: ghost_calls(FS) == 0 and ghost_calls(FR) == 0)
+@lemma(args={'self': ENV, 'action': 'Action'}, stubs={FR: 'State', FS: FSTEP, FO: 'Observation'}, props=['C04', 'C20'])
+def inner_reset_then_step(self, action):
+    self.reset()
+    check('reset-state-from-functional-reset-no-observation-yet', lambda: ghost_calls(FR) == 1 and ghost_calls(FO) == 0
+          and self.state is ghost_result(FR, 0) and ghost_calls(FS) == 0)
+    r = self.step(action)
+    check('steps-the-current-state-with-the-action', lambda: ghost_calls(FS) == 1
+          and ghost_arg(FS, 0, 1) is ghost_result(FR, 0) and ghost_arg(FS, 0, 2) is action)
+    check('returns-reward-and-done-of-the-functional-step', lambda: len(r) == 2 and r[0] == ghost_result(FS, 0)[1]
+          and r[1] == ghost_result(FS, 0)[2])
+    check('state-replaced-no-observation-computed', lambda: self.state is ghost_result(FS, 0)[0] and ghost_calls(FO) == 0
+          and ghost_calls(FR) == 1)
+    o = self.observation
+    check('observation-of-the-new-state-computed-on-demand', lambda: ghost_calls(FO) == 1
+          and ghost_arg(FO, 0, 1) is ghost_result(FS, 0)[0] and o is ghost_result(FO, 0))
+    check('reads-never-step-or-reset', lambda: ghost_calls(FS) == 1 and ghost_calls(FR) == 1)
+
+
+@lemma(args={'self': ENV, 'action': 'Action'}, stubs={FR: 'State', FS: FSTEP, FO: 'Observation'}, props=['C04', 'C20'])
+def inner_reads_follow_reset_and_step(self, action):
+    self.reset()
+    self.state
+    self.observation
+    self.reset()
+    check('state-after-reset', lambda: self.state is ghost_result(FR, 1))
+    o1 = self.observation
+    check('observation-after-reset', lambda: ghost_arg(FO, last_call(FO), 1) is ghost_result(FR, 1)
+          and o1 is ghost_result(FO, last_call(FO)))
+    self.step(action)
+    check('state-after-step', lambda: self.state is ghost_result(FS, 0)[0])
+    o2 = self.observation
+    check('observation-after-step', lambda: ghost_arg(FO, last_call(FO), 1) is ghost_result(FS, 0)[0]
+          and o2 is ghost_result(FO, last_call(FO)))
+    o3 = self.observation
+    check('repeated-read-consumes-nothing', lambda: o3 is o2 and ghost_calls(FO) == 3)
 
 
 # ------------------------------------------------------------------------- OuterEnv
@@ -150,39 +196,24 @@ def outer_step(self, action):
             and result()[0] == ghost_result(ISTEP, 0)[0] and result()[1] == ghost_result(ISTEP, 0)[1])
 
 
-@contract(target=OEM + 'OuterEnv.state', args={'self': OUT}, props=['C04', 'C20'])
-def outer_state(self):
-    rep = self.state_representation
-    st0 = old(self.inner_env._state)
-    ensures('needs-representation', lambda: implies(rep is None, lambda: raised(RuntimeError)))
-    ensures('representation-of-inner-state', lambda: implies(rep is not None and st0 is not None, lambda: (
-        returned() and ghost_calls(rep.convert) == 1 and ghost_arg(rep.convert, 0, 0) is self.inner_env._state
-        and result() is ghost_result(rep.convert, 0))))
-    ensures('raises-before-reset', lambda: implies(rep is not None and st0 is None, lambda: raised(RuntimeError)))
-
-
-@contract(target=OEM + 'OuterEnv.observation', args={'self': OUT}, stubs={FO: 'Observation'}, props=['C04', 'C20'])
-def outer_observation(self):
-    rep = self.observation_representation
-    st0 = old(self.inner_env._state)
-    c0 = old(self.inner_env._observation is not None)
-    ensures('needs-representation', lambda: implies(rep is None, lambda: raised(RuntimeError) and ghost_calls(FO) == 0))
-    ensures('representation-of-inner-observation', lambda: implies(rep is not None and (c0 or st0 is not None), lambda: (
-        returned() and ghost_calls(rep.convert) == 1 and ghost_arg(rep.convert, 0, 0) is self.inner_env._observation
-        and result() is ghost_result(rep.convert, 0))))
+@lemma(args={'self': OUT}, stubs={FR: 'State', FS: FSTEP, FO: 'Observation'}, props=['C04', 'C20'])
+def outer_reads_need_a_representation_and_a_reset(self):
+    srep = self.state_representation
+    orep = self.observation_representation
+    check('state-before-reset-raises', lambda: raises_runtime_error(lambda: self.state))
+    check('observation-before-reset-raises', lambda: raises_runtime_error(lambda: self.observation))
+    check('nothing-converted', lambda: (srep is None or ghost_calls(srep.convert) == 0)
+          and (orep is None or ghost_calls(orep.convert) == 0))
+    self.reset()
+    check('state-without-representation-raises', lambda: implies(srep is None, lambda: raises_runtime_error(lambda: self.state)))
+    check('observation-without-representation-raises', lambda: implies(
+        orep is None, lambda: raises_runtime_error(lambda: self.observation) and ghost_calls(FO) == 0))
 
 
 # ------------------------------------------------------------------------- short histories
 # The per-call contracts above range over every value of the fields the classes have today.  A memo kept in
 # a field added later would start from its constructor value in those contracts, so what an earlier *read*
 # may do to a later one is checked on short histories: read, operate, read again.
-FSTEP = ('tuple', ['State', 'float', 'bool'])
-
-
-def last_call(f):
-    return ghost_calls(f) - 1
-
-
 @lemma(args={'self': OUT, 'action': 'Action'}, stubs={FR: 'State', FS: FSTEP, FO: 'Observation'}, props=['C04', 'C20'])
 def outer_reads_follow_a_reset(self, action):
     srep = self.state_representation
@@ -195,7 +226,7 @@ def outer_reads_follow_a_reset(self, action):
         s = self.state
         o = self.observation
         check('state-read-converts-the-fresh-state', lambda: ghost_calls(FR) == 2
-              and self.inner_env._state is ghost_result(FR, 1)
+              and self.inner_env.state is ghost_result(FR, 1)
               and ghost_arg(srep.convert, last_call(srep.convert), 0) is ghost_result(FR, 1)
               and s is ghost_result(srep.convert, last_call(srep.convert)))
         check('observation-read-converts-the-observation-of-the-fresh-state', lambda: (
@@ -219,29 +250,16 @@ def outer_reads_follow_a_step(self, action):
               and ghost_arg(FS, 0, 1) is ghost_result(FR, 0) and ghost_arg(FS, 0, 2) is action
               and r[0] == ghost_result(FS, 0)[1] and r[1] == ghost_result(FS, 0)[2])
         check('state-read-converts-the-next-state', lambda: (
-            self.inner_env._state is ghost_result(FS, 0)[0]
+            self.inner_env.state is ghost_result(FS, 0)[0]
             and ghost_arg(srep.convert, last_call(srep.convert), 0) is ghost_result(FS, 0)[0]
             and s is ghost_result(srep.convert, last_call(srep.convert))))
         check('observation-read-converts-the-observation-of-the-next-state', lambda: (
             ghost_arg(FO, last_call(FO), 1) is ghost_result(FS, 0)[0]
             and ghost_arg(orep.convert, last_call(orep.convert), 0) is ghost_result(FO, last_call(FO))
             and o is ghost_result(orep.convert, last_call(orep.convert))))
+        n_fo = ghost_calls(FO)
+        self.observation
+        check('a-repeated-read-converts-the-same-inner-observation-and-computes-nothing', lambda: ghost_calls(FO) == n_fo
+              and ghost_arg(orep.convert, last_call(orep.convert), 0) is ghost_result(FO, last_call(FO)))
 
 
-@lemma(args={'self': ENV, 'action': 'Action'}, stubs={FR: 'State', FS: FSTEP, FO: 'Observation'}, props=['C04', 'C20'])
-def inner_reads_follow_reset_and_step(self, action):
-    self.reset()
-    self.state
-    self.observation
-    self.reset()
-    check('state-after-reset', lambda: self.state is ghost_result(FR, 1))
-    o1 = self.observation
-    check('observation-after-reset', lambda: ghost_arg(FO, last_call(FO), 1) is ghost_result(FR, 1)
-          and o1 is ghost_result(FO, last_call(FO)))
-    self.step(action)
-    check('state-after-step', lambda: self.state is ghost_result(FS, 0)[0])
-    o2 = self.observation
-    check('observation-after-step', lambda: ghost_arg(FO, last_call(FO), 1) is ghost_result(FS, 0)[0]
-          and o2 is ghost_result(FO, last_call(FO)))
-    o3 = self.observation
-    check('repeated-read-consumes-nothing', lambda: o3 is o2 and ghost_calls(FO) == 3)
